@@ -5,7 +5,7 @@
 (* decoder's own record parser) and the outcome language of a load: it returns an object     *)
 (* ("loaded") or throws a standard exception ("refused") - nothing else. TLC enumerates the   *)
 (* mutation descriptors; the harness applies them and reports what the real reader did.       *)
-EXTENDS C3DFormat, TLC, Json
+EXTENDS C3DFormat, TLC, Json, IOUtils
 CONSTANTS NSeeds, Stride      \* number of seed files (read from the environment), stride of the plain overwrite sweep
 
 SeedBytes(k) == ndJsonDeserialize(IOEnv.SEEDS)[k].bytes
@@ -27,7 +27,9 @@ FieldMutations(b) ==
   {[kind |-> "set", pos |-> <<f.pos>>, val |-> <<v>>] : f \in {g \in Fields(b) : g.w = 1}, v \in Byte1}
   \cup {[kind |-> "set", pos |-> <<f.pos, f.pos + 1>>, val |-> LE16(v)] : f \in {g \in Fields(b) : g.w = 2}, v \in Word2}
 Truncations(b) == {[kind |-> "trunc", n |-> n] : n \in 0..(Len(b) - 1)}
-Overwrites(b) == {[kind |-> "set", pos |-> <<p>>, val |-> <<v>>] : p \in {q \in 0..(Len(b) - 1) : q % Stride = 0 \/ q < 48}, v \in Byte1 \cup {(p * 37 + 11) % 256}}
+SweepPos(b) == {q \in 0..(Len(b) - 1) : q % Stride = 0 \/ q < 48}
+Overwrites(b) == {[kind |-> "set", pos |-> <<p>>, val |-> <<v>>] : p \in SweepPos(b), v \in Byte1}
+                 \cup {[kind |-> "set", pos |-> <<p>>, val |-> <<(p * 37 + 11) % 256>>] : p \in SweepPos(b)}
 \* pairs inside one record: the name length together with the next-offset, the number of dimensions together with the first dimension
 PairMutations(b) ==
   LET ps == BlockSize * (B(b, 0) - 1)
